@@ -11,7 +11,7 @@ CHECKS = {
         category="exploration",
         technique="differential (metamorphic) property testing across logging configurations on the real client+server over simnet, plus JSON round-trip of every captured qlog event and of structure-aware mutations of them",
         text="Each generated workload / fault schedule is run five times: capturing exporter, no-op exporter, capturing with raw data, scheme-filtered exporter (generated mask), and a second build of the whole stack with the telemetry feature compiled out. All legs must give the same application transcript (bytes read/written per stream, errors, completion time), the same termination errors and the same datagram sequence (direction, and exact size for 1-RTT datagrams). Every event captured along the connection lifetimes (handshake, transfer, loss recovery, close; ~12-20 distinct event names per trace) must serialise to a JSON object with name, time, data and group_id, parse back to an equal event, and convert to the legacy format without panicking; ~240 mutated copies per case (numeric / string fields set to boundary values) must round-trip whenever they still parse. 600 cases quick, 40 000 thorough.",
-        note="Event timestamps come from the wall clock and are never compared. Path-migration events are not produced (one path per connection). Non-finite floats are outside the mutation domain (JSON cannot carry them). Handshake datagram sizes vary by 1-2 bytes between runs (ECDSA signature length) and are compared by direction only.",
+        note="Event timestamps come from the wall clock and are never compared. Path-migration events are not produced (one path per connection). Non-finite floats are outside the mutation domain (JSON cannot carry them). The simnet server authenticates with an Ed25519 certificate issued by the repository's test CA (fixed-length signature) so that datagram sizes are reproducible run to run.",
         design_ref="DESIGN.md §3 C20",
     ),
     "C17": dict(
